@@ -9,6 +9,13 @@ from .. import common as cm
 
 PROP = 'C10'
 THEOREMS = [
+    'C10.unflatten_flatten', 'C10.flatten_unflatten_shape',
+    'C10.valueUnit_model', 'C10.valueUnit_model_nested',
+    'C10.physical_value_unit_independent', 'C10.physical_value_rescaled',
+    'C10.box_model_roundtrip', 'C10.box_model_roundtrip_exact',
+    'C10.atoms_model_roundtrip',
+    'C10.system_model_roundtrip', 'C10.system_model_two_units',
+    'C10.elastic_model_roundtrip', 'C10.elastic_model_roundtrip_exact', 'C10.elastic_model_two',
 ]
 PARTIAL = {}
 
